@@ -1,6 +1,6 @@
 """E2 helpers: access-path canonicalisation (copy/borrow provenance of MIR temporaries) and a small
 forward taint engine over MIR locals with interprocedural summaries."""
-from .facts import op_place, place_str
+from .facts import op_place, place_str, Call
 
 
 class AccessPaths:
@@ -103,103 +103,145 @@ def strip_ref(c):
 
 # ---------------------------------------------------------------------------------------------------
 class Taint:
-    """Flow-insensitive, field-insensitive forward taint over the locals of MIR bodies with
-    interprocedural summaries (return value tainted?) and closure-parameter propagation.
+    """Forward taint over MIR locals (flow- and field-insensitive inside a body) with label sets and
+    parameter-sensitive interprocedural summaries.
 
-    policy object:
-      source(call)            -> label or None         (call result becomes tainted)
-      source_stmt(fn, rv)     -> label or None         (rvalue is a source, e.g. pointer->int cast)
-      sanitizer(call)         -> bool                  (result is clean whatever the arguments)
-      sink(call, targs, T)    -> message or None       (called with the indices of tainted args)
+    A label is either a source description (str) or ("param", i).  The summary of a function is
+        ret      : labels reaching the return value
+        muts[i]  : labels written through the `&mut` parameter i
+    computed with every parameter i carrying ("param", i); at a call site ("param", i) is replaced by the labels
+    of the i-th argument.  Closures passed to a call are analysed with their parameters carrying the labels of the
+    call's other arguments; what they return flows into the call's result.
+
+    policy:
+      source(call) / source_stmt(fn, rv) -> label or None
+      sanitizer(call) -> bool                      result clean, nothing flows
+      transfer(call) -> None | list of arg indices whose labels reach the result (library knowledge)
+      taints_mut_arg(call, i) -> bool              may the call store argument data through its &mut argument i?
+      stmt_blocks(fn, rv) -> bool                  rvalue does not propagate (e.g. ==, != for address taint)
     """
 
-    def __init__(self, facts, policy, crates=("geo", "geo_types")):
+    def __init__(self, facts, policy, crates=("geo", "geo_types"), extra_crates=()):
         self.F = facts
         self.policy = policy
-        self.crates = crates
-        self.summ_ret = {}          # fn key -> label when the return value is tainted (without tainted params)
-        self.closure_params = {}    # closure key -> label
-        self.findings = []
-        self.sources = []
+        self.crates = tuple(crates) + tuple(extra_crates)
+        self.summ = {}            # fn key -> (frozenset ret, {i: frozenset})
+        self.closure_in = {}      # closure key -> frozenset labels for its params ; "env:"+key for captures
+        self.local_maps = {}      # fn key -> {local: frozenset}
+        self.sources = {}         # (fn key, line, label)
+        self.fns = [f for f in facts.by_key.values() if f.crate in self.crates and f.kind in ("Fn", "AssocFn", "Closure")]
+        self._aps = {}
+        self._keys = {f.key for f in self.fns}
 
-    def run(self, extra_crates=()):
-        fns = [f for f in self.F.by_key.values() if f.crate in self.crates + tuple(extra_crates) and f.kind in ("Fn", "AssocFn", "Closure")]
-        changed = True
-        rounds = 0
-        while changed and rounds < 12:
-            rounds += 1
-            changed = False
-            self.findings = []
-            self.sources = []
-            for fn in fns:
-                r = self.analyse(fn)
-                if r and self.summ_ret.get(fn.key) != r:
-                    self.summ_ret[fn.key] = r
-                    changed = True
-            # closure params may have been discovered during the round
-            if self._closure_changed:
-                changed = True
-            self._closure_changed = False
-        return self.findings
+    def run(self, max_rounds=25):
+        # dependency-driven fixpoint: a function is re-analysed when a callee's summary, one of its closures'
+        # summaries, or (for a closure) the labels handed to it changed
+        callers = {}
+        by_key = {f.key: f for f in self.fns}
+        for f in self.fns:
+            for c in f.calls():
+                r = c.raw["func"].get("fn", {}).get("resolved") if not c.indirect else None
+                if r and r["key"] in by_key:
+                    callers.setdefault(r["key"], set()).add(f.key)
+            if f.kind == "Closure" and f.parent in by_key:
+                callers.setdefault(f.key, set()).add(f.parent)
+        dirty = set(by_key)
+        for rounds in range(max_rounds):
+            if not dirty:
+                break
+            nxt = set()
+            for fn in self.fns:
+                if fn.key not in dirty:
+                    continue
+                before = self.summ.get(fn.key)
+                self._touched = set()
+                s = self.analyse(fn)
+                if s != before:
+                    self.summ[fn.key] = s
+                    nxt |= callers.get(fn.key, set())
+                for ck in self._touched:
+                    if ck in by_key:
+                        nxt.add(ck)
+            dirty = nxt
+        return self
 
-    _closure_changed = False
+    _touched = set()
+
+    # -- helpers
+    def ap(self, fn):
+        a = self._aps.get(fn.key)
+        if a is None:
+            a = self._aps[fn.key] = AccessPaths(fn)
+        return a
 
     def root_of(self, ap, place):
         k, pl, _ = ap.canon(place)
         if k in ("arg", "local"):
             return pl
         if k == "call":
-            # result of a call: the local that received it
-            t = ap.fn.term(pl)
-            return t["dest"]["l"]
+            return ap.fn.term(pl)["dest"]["l"]
         if k == "agg":
             return pl[1]
         return place["l"]
 
+    def labels(self, fn, local):
+        return self.local_maps.get(fn.key, {}).get(local, frozenset())
+
+    def real(self, labs):
+        """labels that are genuine sources (not parameter placeholders)"""
+        return frozenset(l for l in labs if not isinstance(l, tuple))
+
     def analyse(self, fn):
         pol = self.policy
-        ap = AccessPaths(fn)
-        tainted = {}     # root local -> label
+        ap = self.ap(fn)
+        T = {}
 
-        def t_of_place(p):
-            r = self.root_of(ap, p)
-            if r in tainted:
-                return tainted[r]
-            if p["l"] in tainted:
-                return tainted[p["l"]]
-            for e in p["p"]:
-                if e[0] == "index" and e[1] in tainted:
-                    return tainted[e[1]]
-            return None
+        def get(l):
+            return T.get(l, frozenset())
 
-        def t_of_op(op):
-            p = op_place(op)
-            return t_of_place(p) if p is not None else None
+        def of_place(p):
+            s = get(self.root_of(ap, p)) | get(p["l"])
+            return s
 
-        def taint_place(p, label):
+        def of_op(o):
+            p = op_place(o)
+            return of_place(p) if p is not None else frozenset()
+
+        def add(p, labs):
+            if not labs:
+                return False
             ch = False
             for l in {self.root_of(ap, p), p["l"]}:
-                if l not in tainted:
-                    tainted[l] = label
+                old = T.get(l, frozenset())
+                new = old | labs
+                if new != old:
+                    T[l] = new
                     ch = True
             return ch
 
-        # closure bodies whose parameters were tainted by a caller
-        if fn.kind == "Closure" and fn.key in self.closure_params:
+        if fn.kind == "Closure":
+            pin = self.closure_in.get(fn.key, frozenset())
             for i in range(2, fn.arg_count + 1):
-                tainted[i] = self.closure_params[fn.key]
-        if fn.kind == "Closure" and ("env:" + fn.key) in self.closure_params:
-            tainted[1] = self.closure_params["env:" + fn.key]
+                T[i] = pin | {("param", i)}
+            T[1] = self.closure_in.get("env:" + fn.key, frozenset()) | {("param", 1)}
+        else:
+            for i in range(1, fn.arg_count + 1):
+                T[i] = frozenset([("param", i)])
 
         closure_of_local = {}
         for bb, pl, rv, line in fn.all_assigns():
             if rv[0] == "agg" and isinstance(rv[1], dict) and "closure" in rv[1] and not pl["p"]:
                 closure_of_local[pl["l"]] = (rv[1]["key"], rv[2])
 
-        findings = {}
+        def closure_of(op):
+            p = op_place(op)
+            if p is None:
+                return None
+            return closure_of_local.get(self.root_of(ap, p)) or closure_of_local.get(p["l"])
+
         changed = True
         it = 0
-        while changed and it < 30:
+        while changed and it < 40:
             it += 1
             changed = False
             for bb in fn.normal_blocks():
@@ -207,93 +249,163 @@ class Taint:
                     if st[0] != "assign":
                         continue
                     pl, rv, line = st[1], st[2], st[3]
-                    lab = None
+                    labs = frozenset()
                     s = pol.source_stmt(fn, rv) if hasattr(pol, "source_stmt") else None
                     if s:
-                        lab = s
-                        self.sources.append((s, fn, line))
-                    else:
-                        ops = []
-                        if rv[0] == "use":
-                            ops = [rv[1]]
-                        elif rv[0] in ("ref", "rawptr"):
-                            lab = t_of_place(rv[2])
-                        elif rv[0] == "bin":
-                            ops = [rv[2], rv[3]]
-                        elif rv[0] in ("un", "cast"):
-                            ops = [rv[2]]
-                        elif rv[0] == "agg":
-                            ops = rv[2]
-                        elif rv[0] == "discr":
-                            lab = t_of_place(rv[1])
-                        elif rv[0] == "repeat":
-                            ops = [rv[1]]
+                        labs = frozenset([s])
+                        self.sources[(fn.key, line, s)] = fn
+                    ops = []
+                    if rv[0] == "use":
+                        ops = [rv[1]]
+                    elif rv[0] in ("ref", "rawptr"):
+                        labs |= of_place(rv[2])
+                    elif rv[0] == "bin":
+                        ops = [rv[2], rv[3]]
+                    elif rv[0] in ("un", "cast"):
+                        ops = [rv[2]]
+                    elif rv[0] == "agg":
+                        ops = rv[2]
+                    elif rv[0] == "discr":
+                        labs |= of_place(rv[1])
+                    elif rv[0] == "repeat":
+                        ops = [rv[1]]
+                    if not (hasattr(pol, "stmt_blocks") and pol.stmt_blocks(fn, rv)):
                         for o in ops:
-                            lab = lab or t_of_op(o)
-                        if lab and hasattr(pol, "stmt_blocks") and pol.stmt_blocks(fn, rv):
-                            lab = None
-                    if lab and taint_place(pl, lab):
+                            labs |= of_op(o)
+                    # writing through a projection with a tainted *index* does not taint the container's values
+                    if add(pl, labs):
                         changed = True
                 t = fn.term(bb)
-                if t["k"] == "switch":
-                    continue
                 if t["k"] != "call":
                     continue
-                from .facts import Call
                 c = Call(fn, bb, t)
-                targs = [i for i, a in enumerate(c.args) if t_of_op(a)]
-                lab = None
+                arg_labs = [of_op(a) for a in c.args]
+                ret = frozenset()
+                muts = {}
                 src = pol.source(c)
                 if src:
-                    lab = src
-                    self.sources.append((src, fn, c.line))
+                    ret = frozenset([src])
+                    self.sources[(fn.key, c.line, src)] = fn
                 elif pol.sanitizer(c):
-                    lab = None
+                    ret = frozenset()
                 else:
-                    if targs:
-                        lab = t_of_op(c.args[targs[0]])
-                    # callee summary
-                    r = c.raw["func"].get("fn", {}).get("resolved")
-                    if r and r["key"] in self.summ_ret:
-                        lab = lab or self.summ_ret[r["key"]]
-                if targs:
-                    msg = pol.sink(c, targs, self)
-                    if msg:
-                        findings[(fn.key, bb)] = (fn, c, msg, t_of_op(c.args[targs[0]]))
-                    # closures handed a tainted stream: their parameters are tainted
+                    r = c.raw["func"].get("fn", {}).get("resolved") if not c.indirect else None
+                    summ = self.summ.get(r["key"]) if r else None
+                    if summ is None and r and r["key"] in self._keys:
+                        summ = (frozenset(), {})      # not analysed yet: bottom (the caller is re-analysed when it appears)
+                    tr = pol.transfer(c) if hasattr(pol, "transfer") else None
+                    if tr is not None:
+                        for i in tr:
+                            if i < len(arg_labs):
+                                ret |= arg_labs[i]
+                    elif summ is not None and r["crate"] in self.crates:
+                        sret, smuts = summ
+                        for l in sret:
+                            if isinstance(l, tuple):
+                                if l[1] - 1 < len(arg_labs):
+                                    ret |= arg_labs[l[1] - 1]
+                            else:
+                                ret |= {l}
+                        for i, ls in smuts.items():
+                            acc = frozenset()
+                            for l in ls:
+                                if isinstance(l, tuple):
+                                    if l[1] - 1 < len(arg_labs):
+                                        acc |= arg_labs[l[1] - 1]
+                                else:
+                                    acc |= {l}
+                            muts[i - 1] = acc
+                    else:
+                        # unknown callee: everything flows to the result, and into &mut arguments if the policy says so
+                        for ls in arg_labs:
+                            ret |= ls
+                        tys = c.raw.get("arg_tys", [])
+                        for i, ty in enumerate(tys):
+                            if ty.startswith("&mut") and pol.taints_mut_arg(c, i):
+                                acc = frozenset()
+                                for j, ls in enumerate(arg_labs):
+                                    if j != i:
+                                        acc |= ls
+                                muts[i] = acc
+                    # closures passed to the call
                     for i, a in enumerate(c.args):
-                        p = op_place(a)
-                        if p is None or i in targs:
+                        ck = closure_of(a)
+                        if not ck:
                             continue
-                        ck = closure_of_local.get(self.root_of(ap, p)) or closure_of_local.get(p["l"])
-                        if ck and ck[0] not in self.closure_params:
-                            self.closure_params[ck[0]] = t_of_op(c.args[targs[0]])
-                            self._closure_changed = True
-                    # &mut arguments may receive tainted data
-                    if not pol.sanitizer(c):
-                        for i, (a, ty) in enumerate(zip(c.args, c.raw.get("arg_tys", []))):
-                            if i not in targs and ty.startswith("&mut"):
-                                p = op_place(a)
-                                if p is not None and pol.taints_mut_arg(c, i):
-                                    if taint_place(p, t_of_op(c.args[targs[0]])):
-                                        changed = True
-                # closures capturing tainted locals
-                for i, a in enumerate(c.args):
-                    p = op_place(a)
-                    if p is None:
-                        continue
-                    ck = closure_of_local.get(self.root_of(ap, p)) or closure_of_local.get(p["l"])
-                    if ck:
-                        caplab = None
+                        others = frozenset()
+                        for j, ls in enumerate(arg_labs):
+                            if j != i:
+                                others |= ls
+                        others = frozenset(l for l in others)
+                        old = self.closure_in.get(ck[0], frozenset())
+                        if not others <= old:
+                            self.closure_in[ck[0]] = old | others
+                            self._touched.add(ck[0])
+                        cap = frozenset()
                         for o in ck[1]:
-                            caplab = caplab or t_of_op(o)
-                        if caplab and ("env:" + ck[0]) not in self.closure_params:
-                            self.closure_params["env:" + ck[0]] = caplab
-                            self._closure_changed = True
-                if lab and taint_place(t["dest"], lab):
+                            cap |= of_op(o)
+                        olde = self.closure_in.get("env:" + ck[0], frozenset())
+                        if not cap <= olde:
+                            self.closure_in["env:" + ck[0]] = olde | cap
+                            self._touched.add(ck[0])
+                        cs = self.summ.get(ck[0])
+                        if cs:
+                            ret |= frozenset(l for l in cs[0] if not isinstance(l, tuple))
+                            # data written by the closure through captured &mut places
+                            for l in cs[1].get(1, frozenset()):
+                                if not isinstance(l, tuple):
+                                    for o in ck[1]:
+                                        p = op_place(o)
+                                        # only captures by `&mut` can be written by the closure
+                                        if p is not None and fn.locals[p["l"]].startswith("&mut") and add(p, frozenset([l])):
+                                            changed = True
+                for i, ls in muts.items():
+                    if i < len(c.args):
+                        p = op_place(c.args[i])
+                        if p is not None and add(p, ls):
+                            changed = True
+                if add(t["dest"], ret):
                     changed = True
-        for v in findings.values():
-            self.findings.append(v)
-        if fn.kind == "Closure" and (fn.key in self.closure_params or ("env:" + fn.key) in self.closure_params):
-            return None      # closure results are accounted for at the adaptor call
-        return tainted.get(0)
+        self.local_maps[fn.key] = T
+        ret = T.get(0, frozenset())
+        muts = {}
+        for i in range(1, fn.arg_count + 1):
+            ty = fn.locals[i]
+            if ty.startswith("&mut") or fn.kind == "Closure" and i == 1:
+                ls = T.get(i, frozenset()) - {("param", i)}
+                if ls:
+                    muts[i] = ls
+        return (ret, muts)
+
+    # -- queries after run()
+    def tainted_calls(self, fn):
+        """[(Call, [labels per arg])] for calls of fn with at least one argument carrying a real label."""
+        out = []
+        ap = self.ap(fn)
+        T = self.local_maps.get(fn.key, {})
+        for c in fn.calls():
+            ls = []
+            for a in c.args:
+                p = op_place(a)
+                s = frozenset()
+                if p is not None:
+                    s = T.get(self.root_of(ap, p), frozenset()) | T.get(p["l"], frozenset())
+                ls.append(self.real(s))
+            if any(ls):
+                out.append((c, ls))
+        return out
+
+    def switch_labels(self, fn):
+        """[(bb, line, labels)] for SwitchInt terminators whose discriminant carries a real label."""
+        out = []
+        ap = self.ap(fn)
+        T = self.local_maps.get(fn.key, {})
+        for bb in fn.normal_blocks():
+            t = fn.term(bb)
+            if t["k"] == "switch":
+                p = op_place(t["discr"])
+                if p is not None:
+                    s = self.real(T.get(self.root_of(ap, p), frozenset()) | T.get(p["l"], frozenset()))
+                    if s:
+                        out.append((bb, t.get("line"), s))
+        return out
